@@ -102,7 +102,14 @@ def main():
                 if route == 'numpy':
                     hdrs = {189: np.repeat(np.array(il, dtype=np.int32)[:, None], n_xl, 1), 193: np.repeat(np.array(xl, dtype=np.int32)[None, :], n_il, 0),
                             73: (np.arange(n_il * n_xl, dtype=np.int64).reshape(n_il, n_xl) * 7 - 50)}
-                    write_numpy_sgz(p, src, bpv=bpv, blockshape=bs, ilines=np.array(il), xlines=np.array(xl), trace_headers=hdrs)
+                    given = dict(hdrs)
+                    if ci % 4 == 0:
+                        # a field ABOVE 193 supplied by the user while inline/crossline headers are left to the converter:
+                        # the footer order must still be the ascending header-word order the table implies
+                        hdrs[197] = (np.arange(n_il * n_xl, dtype=np.int32).reshape(n_il, n_xl) * 3 + 7000)
+                        given = {73: hdrs[73], 197: hdrs[197]}
+                        inp['numpy_headers'] = 'fields 73 and 197 given, 189/193 generated'
+                    write_numpy_sgz(p, src, bpv=bpv, blockshape=bs, ilines=np.array(il), xlines=np.array(xl), trace_headers=given)
                     hsrc = lambda key, hdrs=hdrs: hdrs[key].astype(np.int32).reshape(-1) if key in hdrs else None
                     narr = 3
                 else:
@@ -169,6 +176,15 @@ def main():
                     check_file(q, inp3)
                     R.case(('crop', idx), sample=inp3)
                     R.count('writer:crop')
+                    # a crop whose stop lies strictly inside the last partial unit of an axis (the box is widened and CLIPPED)
+                    if n_il % 4 != 1 and n_il >= 6:
+                        qe = os.path.join(d, f'n{idx}_crope.sgz')
+                        e_stop = 4 * ((n_il - 1) // 4) + 1
+                        with SgzCropper(p) as c:
+                            quiet(c.write_cropped_file_by_indexes, qe, iline_index_range=(4, e_stop), xline_index_range=(0, n_xl), zslices_index_range=(0, ns))
+                        check_file(qe, dict(inp3, box=f'inlines 4..{e_stop} of {n_il}'), None, (n_il - 4, n_xl, ns))
+                        R.case(('crope', idx))
+                        R.count('writer:crop')
                     # whole-cube crop: same trace count as the source (hits 4n mod 512 = 0 when the source does)
                     q0 = os.path.join(d, f'n{idx}_crop0.sgz')
                     with SgzCropper(p) as c:
